@@ -869,3 +869,369 @@ def generate_mutants(repo):
         info[name] = changed
     L.append('end S4V.Gen.LinesMutants')
     return '\n'.join(L) + '\n', {'mutants': len(MUTANTS)}
+
+
+# ================================================================ Lines2: find_line_in_block, drop_line, drop_lines
+#
+# `find_line_in_block` is translated into `S4V.Gen.Lines2.findLineInBlock : List StmtIB`. `StmtIB` wraps the
+# statement language of `find_line` (`.s <Stmt>`: the statement is translated by the SAME translator `Tr`) and adds
+# what only `find_line_in_block` has:
+#   * the bool local `partial_line`            -> `.setPartial b`, condition atom `.partialLine`
+#   * `a ^ b` in a release-active `assert!`    -> `.assert (.xor a b)`
+#   * `let linep: LineP = LineP::new(line);`   -> `.lineP`   (the line is wrapped but NOT stored: no `insert_line`)
+#   * `return (ResultS3LineFind::Done, Some(line));` -> `.retPartial`
+#   * an `if` that mentions any of these       -> `.ite <BExprIB> … …`
+# Normalisations (each counted, anything else raises GenError): every other return is `(<result>, None)` and is read as
+# `return <result>`; `self.is_fileoffset_last(e)` is `self.filesz() - 1 == e` (both helpers pinned).
+
+IB_SECTIONS = [
+    ('prologue', r'if let Some\(result\) = self\.check_store\('),
+    ('init', r'let bptr_middle: BlockP = match'),
+    ('partB1', r'if !found_nl_b \{ partial_line = '),
+    ('partA0', r'if found_nl_a \{'),
+    ('asserts', r'assert!\(!found_nl_b \^'),
+    ('partA1', r'if fileoffset >= charsz_fo \{'),
+    ('partA2', r'if !found_nl_a \{ return'),
+    ('partD', None),
+]
+
+IB_PINS = {
+    ('linereader.rs', 'is_fileoffset_last'): 'fn is_fileoffset_last(&self, fileoffset: FileOffset) -> bool { self.fileoffset_last() == fileoffset }',
+    ('linereader.rs', 'fileoffset_last'): 'fn fileoffset_last(&self) -> FileOffset { self.blockreader.fileoffset_last() }',
+    ('blockreader.rs', 'fileoffset_last'): 'fn fileoffset_last(&self) -> FileOffset { (self.filesz() - 1) as FileOffset }',
+}
+
+IB_MARK = re.compile(r'\bpartial_line\b|LineP::new\(line\)|Some\(line\)')
+
+
+def ib_normalise(text, W):
+    n_none = len(re.findall(r', None\)', text))
+    subs = [
+        (r'return \(result, None\);', 'return result;'),
+        (r'return \(ResultS3LineFind::Done, None\);', 'return ResultS3LineFind::Done;'),
+        (r'return \(ResultS3LineFind::Err\(err\), None\);', 'return ResultS3LineFind::Err(err);'),
+        (r'return \(ResultS3LineFind::Found\(\((\w+), linep\)\), None\);', r'return ResultS3LineFind::Found((\1, linep));'),
+        (r'\(ResultS3LineFind::Found\(\((\w+), linep\)\), None\)\s*$', r'ResultS3LineFind::Found((\1, linep))'),
+    ]
+    done = 0
+    for pat, rep in subs:
+        text, k = re.subn(pat, rep, text)
+        done += k
+    need(done == n_none and ', None)' not in text,
+         f'{W}: a return whose second component is `None` left the known shapes ({done} of {n_none} recognised)')
+    text, k = re.subn(r'self\.is_fileoffset_last\((\w+)\)', r'self.filesz() - 1 == \1', text)
+    need(k == 1, f'{W}: `self.is_fileoffset_last(..)` is used {k} times (expected once, for nl_b_eof)')
+    return text
+
+
+class TrIB:
+    def __init__(self, where):
+        self.where = where
+        self.tr = Tr(where)
+
+    def cond(self, c):
+        W = self.where
+        def atom(a):
+            a = a.strip()
+            if a == 'partial_line':
+                return '.partialLine'
+            if a == '!partial_line':
+                return '.not (.partialLine)'
+            need('partial_line' not in a, f'{W}: `partial_line` inside the condition atom {a!r}')
+            return f'.b ({pcond(W, a)})'
+        def conj(x):
+            parts = [p for p in x.split(' && ')]
+            e = atom(parts[0])
+            for p in parts[1:]:
+                e = f'.and ({e}) ({atom(p)})'
+            return e
+        xs = c.split(' ^ ')
+        need(len(xs) <= 2, f'{W}: more than one `^` in {c!r}')
+        if len(xs) == 2:
+            return f'.xor ({conj(xs[0])}) ({conj(xs[1])})'
+        return conj(c)
+
+    def block(self, text):
+        W = self.where
+        self.tr.where = W
+        stmts = split_stmts(text, W)
+        out, k = [], 0
+        while k < len(stmts):
+            s = stmts[k]
+            k += 1
+            m = re.fullmatch(r'(?:let mut )?partial_line ?(?:: bool)? ?= (true|false);', s)
+            if m:
+                out.append(f'.setPartial {m.group(1)}')
+                continue
+            if s == 'return (ResultS3LineFind::Done, Some(line));':
+                out.append('.retPartial')
+                continue
+            if s == 'let linep: LineP = LineP::new(line);':
+                out.append('.lineP')
+                continue
+            m = re.fullmatch(r'assert!\((.*)\);', s)
+            if m and IB_MARK.search(split_args(m.group(1))[0]):
+                out.append(f'.assert ({self.cond(split_args(m.group(1))[0])})')
+                continue
+            if s.startswith('if ') and IB_MARK.search(s):
+                chain = head_and_blocks(s, W)
+                node = None
+                for c, body in reversed(chain):
+                    if c is None:
+                        node = self.block(body)
+                    else:
+                        node = [['.ite', self.cond(c), self.block(body), node if node is not None else []]]
+                out.extend(node)
+                continue
+            need(IB_MARK.search(s) is None, f'{W}: statement outside the known shapes: {s[:200]!r}')
+            if re.match(r'let li(: LinePart)? = ', s) and k < len(stmts):
+                s = s + ' ' + stmts[k]
+                k += 1
+            for t in self.tr.block(s):
+                out.append(['.s', t])
+        return out
+
+
+def render_ib(node, ind):
+    pad = ' ' * ind
+    if isinstance(node, str):
+        return pad + node
+    if node[0] == '.s':
+        inner = render(node[1], ind + 4)
+        return f'{pad}.s ({inner.lstrip()})'
+    if node[0] == '.ite':
+        return f'{pad}.ite ({node[1]})\n{render_ib_list(node[2], ind + 2)}\n{render_ib_list(node[3], ind + 2)}'
+    raise GenError(f'internal: {node!r}')
+
+
+def render_ib_list(xs, ind):
+    pad = ' ' * ind
+    if not xs:
+        return pad + '[]'
+    return pad + '[\n' + ',\n'.join(render_ib(x, ind + 1) for x in xs) + ']'
+
+
+def gen_find_line_in_block(lr):
+    W = f'{LR}::find_line_in_block'
+    need(len(re.findall(r'\bfn find_line_in_block\b', lr)) == 1, f'{W}: not exactly one definition')
+    sig, body, _ = find_fn(lr, 'find_line_in_block')
+    need(flat(sig) == 'fn find_line_in_block(&mut self, fileoffset: FileOffset) -> (ResultS3LineFind, Option<Line>)',
+         f'{W}: signature changed: {flat(sig)!r}')
+    text = flat(body)
+    need('fo_nl_b_in_middle' not in text, f'{W}: unexpected local `fo_nl_b_in_middle`')
+    text = ib_normalise(text, W)
+    top = split_stmts(text, W)
+    secs, cur, si = [], [], 0
+    for s in top:
+        cur.append(s)
+        name, anchor = IB_SECTIONS[si]
+        if anchor is not None and re.match(anchor, s):
+            secs.append((name, cur))
+            cur, si = [], si + 1
+            need(si < len(IB_SECTIONS), f'{W}: more sections than expected')
+    need(si == len(IB_SECTIONS) - 1 and cur, f'{W}: the top-level statements no longer contain the anchors '
+         f'{[a for _, a in IB_SECTIONS[:-1]]} in this order (stopped before `{IB_SECTIONS[si][0]}`)')
+    secs.append((IB_SECTIONS[-1][0], cur))
+    out = []
+    for name, stmts in secs:
+        tr = TrIB(f'{W} [{name}]')
+        out.append((name, tr.block(' '.join(stmts))))
+    return out
+
+
+# ---- drop_line / drop_lines: facts extracted from the (pinned-shape) text
+
+def gen_drop(lr):
+    W = f'{LR}::drop_line'
+    sig, body, _ = find_fn(lr, 'drop_line')
+    need(flat(sig) == 'fn drop_line(&mut self, linep: LineP) -> bool', f'{W}: signature changed: {flat(sig)!r}')
+    b = flat(body)
+    m = re.fullmatch(
+        r'let mut ret = false; let fo_key: FileOffset = \(\*linep\)\.(fileoffset_begin|fileoffset_end)\(\); '
+        r'(?P<rm>(?:self\.\w+\.(?:pop|remove)\(&fo_key\); )+)'
+        r'match Arc::try_unwrap\(linep\) \{ Ok\(line\) => \{ self\.drop_line_ok \+= 1; \{ self\.dropped_lines\.insert\(line\.fileoffset_begin\(\)\); \} '
+        r'let take_ = match line\.lineparts\.len\(\) \{ 0 => 0, val => val(?P<keep> - \d+)?, \}; '
+        r'for linepart in line\.lineparts\.into_iter\(\)(?P<rev>\.rev\(\))?\.(?P<sel>take|skip)\(take_\) \{ let bo = linepart\.blockoffset\(\); drop\(linepart\); '
+        r'if self\.blockreader\.drop_block\(bo\) \{ ret = true; \} \} \} '
+        r'Err\(_linep\) => \{ self\.drop_line_errors \+= 1; \} \} ret', b)
+    need(m is not None, f'{W}: the body left the expected shape: {b!r}')
+    removes = re.findall(r'self\.(\w+)\.(?:pop|remove)\(&fo_key\);', m.group('rm'))
+    known = {'find_line_lru_cache': 'lru', 'lines': 'lines', 'foend_to_fobeg': 'endToBeg'}
+    for r in removes:
+        need(r in known, f'{W}: removes from an unknown container `{r}`')
+    need(len(set(removes)) == len(removes), f'{W}: a container is removed from twice')
+    keep = int(m.group('keep').replace(' ', '')[1:]) if m.group('keep') else 0
+    facts = {
+        'key_is_begin': m.group(1) == 'fileoffset_begin',
+        'removes': [known[r] for r in removes],
+        'keep_last': keep,
+        'take': m.group('sel') == 'take',
+        'rev': m.group('rev') is not None,
+    }
+    W2 = f'{LR}::drop_lines'
+    sig, body, _ = find_fn(lr, 'drop_lines')
+    need(flat(sig) == 'fn drop_lines(&mut self, lines: Lines) -> bool', f'{W2}: signature changed')
+    b2 = flat(body)
+    m2 = re.fullmatch(r'if ! ?self\.is_drop_data\(\) \{ return false; \} let mut ret = false; '
+                      r'for linep in lines\.into_iter\(\)(?P<rev>\.rev\(\))? \{ if self\.drop_line\(linep\) \{ ret = true; \} \} ret', b2)
+    need(m2 is not None, f'{W2}: the body left the expected shape: {b2!r}')
+    facts['lines_rev'] = m2.group('rev') is not None
+    return facts
+
+
+def lean_bool(b):
+    return 'true' if b else 'false'
+
+
+HEADER2 = '''-- GENERATED by /verif/gen/s4gen.py (gen_lines.py) from src/readers/linereader.rs, src/readers/blockreader.rs — do not edit
+import S4V.Gen.Lines
+namespace S4V.Gen.Lines2
+open S4V.Gen.Lines
+
+/-! ### what `find_line_in_block` adds to the statement language of `find_line` (gen/gen_lines.py, "Lines2") -/
+
+/-- `b c` = a condition of the `find_line` language; `partialLine` = the bool local `partial_line`; `xor` = `^` -/
+inductive BExprIB where
+  | b (c : BExpr) | partialLine | not (a : BExprIB) | and (a b : BExprIB) | xor (a b : BExprIB)
+  deriving Repr, Inhabited
+
+/-- `s st` = a statement of the `find_line` language (translated by the same translator); `setPartial` =
+`partial_line = <bool>`; `lineP` = `let linep: LineP = LineP::new(line);` (wrapped, NOT stored);
+`retPartial` = `return (ResultS3LineFind::Done, Some(line));`; every other return has `None` as its second component -/
+inductive StmtIB where
+  | s (st : Stmt)
+  | setPartial (b : Bool)
+  | ite (c : BExprIB) (t e : List StmtIB)
+  | assert (c : BExprIB)
+  | lineP
+  | retPartial
+  deriving Repr, Inhabited
+
+/-- the containers `drop_line` removes the line's key from -/
+inductive Container where
+  | lru | lines | endToBeg
+  deriving DecidableEq, Repr, Inhabited
+'''
+
+
+def render_lines2(secs, facts, ns_prefix=''):
+    L = []
+    for name, stmts in secs:
+        L.append(f'def {name} : List StmtIB :=\n{render_ib_list(stmts, 2)}\n')
+    L.append('/-- `LineReader::find_line_in_block` -/')
+    L.append('def findLineInBlock : List StmtIB :=\n  ' + ' ++ '.join(n for n, _ in secs))
+    return L
+
+
+def render_drop(facts):
+    return [
+        '/-- `drop_line`: the key is `(*linep).fileoffset_begin()` -/',
+        f'def DROP_KEY_IS_BEGIN : Bool := {lean_bool(facts["key_is_begin"])}',
+        '/-- `drop_line`: the containers the key is removed from, in source order -/',
+        'def DROP_REMOVES : List Container := [' + ', '.join('.' + r for r in facts['removes']) + ']',
+        '/-- `drop_line`: `take_ = lineparts.len() - DROP_KEEP` parts (0 for an empty line) have their block dropped -/',
+        f'def DROP_KEEP : Nat := {facts["keep_last"]}',
+        '/-- `drop_line`: the parts are selected by `.take(take_)` (the FIRST parts; `false` = `.skip`) -/',
+        f'def DROP_TAKE_FIRST : Bool := {lean_bool(facts["take"])}',
+        '/-- `drop_line`: the parts are visited in reverse -/',
+        f'def DROP_REVERSED : Bool := {lean_bool(facts["rev"])}',
+        '/-- `drop_lines`: the lines are visited in reverse -/',
+        f'def DROP_LINES_REVERSED : Bool := {lean_bool(facts["lines_rev"])}',
+    ]
+
+
+def read_src(repo):
+    lr = strip_comments(open(os.path.join(repo, 'src/readers/linereader.rs')).read())
+    br = strip_comments(open(os.path.join(repo, 'src/readers/blockreader.rs')).read())
+    return lr, br
+
+
+def pin_ib(lr, br):
+    for (f, name), want in IB_PINS.items():
+        src = lr if f == 'linereader.rs' else br
+        sig, body, _ = find_fn(src, name)
+        got = re.sub(r'^(pub )?(const )?', '', flat(sig + '{' + body + '}'))
+        got = re.sub(r'^(pub )?(const )?', '', got)
+        if got != want:
+            raise GenError(f'{f}::{name} left its pinned text:\n   got: {got}\n  want: {want}')
+
+
+def generate2(repo):
+    lr, br = read_src(repo)
+    pin_ib(lr, br)
+    secs = gen_find_line_in_block(lr)
+    facts = gen_drop(lr)
+    L = [HEADER2, '/-! ### `find_line_in_block`, section by section (top-level statements in source order) -/', '']
+    L += render_lines2(secs, facts)
+    L += ['', '/-! ### `drop_line`, `drop_lines` -/', ''] + render_drop(facts)
+    L += ['', 'end S4V.Gen.Lines2']
+    text = '\n'.join(L) + '\n'
+    return text, {'sections': len(secs), 'drop_removes': facts['removes']}
+
+
+# ---------------------------------------------------------------- Lines2 mutants (counter-models)
+
+MUTANTS_IB = [
+    ('ibA0End', 'A0: `bi_middle_end + 1` -> `bi_middle_end` in the LinePart of a line that begins the file',
+     [(r'self\.block_index_at_file_offset\(fo_nl_a\),\s*bi_middle_end \+ 1,', 'self.block_index_at_file_offset(fo_nl_a), bi_middle_end,')]),
+    ('ibBofEq', 'A2a: `if bof != bo_middle` -> `if bof == bo_middle` (gives up exactly when newline A could be in the block)',
+     [(r'if bof != bo_middle \{', 'if bof == bo_middle {')]),
+    ('ibBegof', 'A2a: `if bof == 0` -> `if bof != 0` (a block other than the first one is taken for the beginning of the file)',
+     [(r'if bof == 0 \{', 'if bof != 0 {')]),
+    ('ibNoPartial', '`partial_line = true` -> `partial_line = false` when newline B is not in the block',
+     [(r'if !found_nl_b \{\s*partial_line = true;', 'if !found_nl_b { partial_line = false;')]),
+    ('ibStoreFinal', 'the line found by the backward scan is stored: `LineP::new(line)` -> `self.insert_line(line)`',
+     [(r'let linep: LineP = LineP::new\(line\);', 'let linep: LineP = self.insert_line(line);')]),
+]
+
+MUTANTS_DROP = [
+    ('dropAllParts', '`val => val - 1` -> `val => val` (the block of the LAST part is dropped too)',
+     [(r'val => val - 1,', 'val => val,')]),
+    ('dropSkip', '`.take(take_)` -> `.skip(take_)` (only the block of the last part is dropped)',
+     [(r'\.take\(take_\)', '.skip(take_)')]),
+    ('dropKeyEnd', 'key `fileoffset_begin()` -> `fileoffset_end()`',
+     [(r'let fo_key: FileOffset = \(\*linep\)\.fileoffset_begin\(\);', 'let fo_key: FileOffset = (*linep).fileoffset_end();')]),
+]
+
+
+def edit_fn(lr0, fname, name, edits):
+    sig0, body0, start0 = find_fn(lr0, fname)
+    end0 = start0 + len(sig0) + len(body0) + 2
+    fn = lr0[start0:end0]
+    for pat, rep in edits:
+        n = len(re.findall(pat, fn))
+        need(n == 1, f'mutant {name}: the pattern {pat!r} matches {n} times in {fname} (the source left the shape the mutant edits)')
+        fn = re.sub(pat, rep, fn, count=1)
+    return lr0[:start0] + fn + lr0[end0:]
+
+
+def generate_mutants2(repo):
+    lr0, br = read_src(repo)
+    base = dict(gen_find_line_in_block(lr0))
+    base_facts = gen_drop(lr0)
+    L = ['-- GENERATED by /verif/gen/s4gen.py (gen_lines.py) from src/readers/linereader.rs — do not edit',
+         '-- `find_line_in_block` / `drop_line` re-translated from the source with ONE edit each (gen_lines.py `MUTANTS_IB`, `MUTANTS_DROP`): counter-models',
+         'import S4V.Gen.Lines2',
+         'namespace S4V.Gen.Lines2Mutants',
+         'open S4V.Gen.Lines (Stmt BExpr)',
+         'open S4V.Gen.Lines2 (StmtIB BExprIB Container)', '']
+    for name, what, edits in MUTANTS_IB:
+        secs = gen_find_line_in_block(edit_fn(lr0, 'find_line_in_block', name, edits))
+        changed = [n for n, st in secs if st != base[n]]
+        need(changed, f'mutant {name}: the edit does not change the translated program')
+        L.append(f'-- mutant `{name}`: {what}')
+        L.append(f'namespace {name}')
+        for sec, stmts in secs:
+            if sec in changed:
+                L.append(f'def {sec} : List StmtIB :=\n{render_ib_list(stmts, 2)}\n')
+        L.append('def findLineInBlock : List StmtIB :=\n  ' + ' ++ '.join((n if n in changed else 'S4V.Gen.Lines2.' + n) for n, _ in secs))
+        L.append(f'end {name}\n')
+    for name, what, edits in MUTANTS_DROP:
+        facts = gen_drop(edit_fn(lr0, 'drop_line', name, edits))
+        need(facts != base_facts, f'mutant {name}: the edit does not change the extracted facts')
+        L.append(f'-- mutant `{name}`: {what}')
+        L.append(f'namespace {name}')
+        L += render_drop(facts)
+        L.append(f'end {name}\n')
+    L.append('end S4V.Gen.Lines2Mutants')
+    return '\n'.join(L) + '\n', {'mutants': len(MUTANTS_IB) + len(MUTANTS_DROP)}
